@@ -738,11 +738,16 @@ type rcvFCWrap struct {
 	read, final         protocol.ByteCount
 	finalKnown          bool
 	abandonedAfterFinal bool
+	// the real flow controller said, in answer to AddBytesRead, that a window update has become due (since the last Read returned)
+	connUpdDue, streamUpdDue bool
 }
 
 func (w *rcvFCWrap) AddBytesRead(n protocol.ByteCount) (bool, bool) {
 	w.read += n
-	return w.StreamFlowController.AddBytesRead(n)
+	hasStream, hasConn := w.StreamFlowController.AddBytesRead(n)
+	w.connUpdDue = w.connUpdDue || hasConn
+	w.streamUpdDue = w.streamUpdDue || hasStream
+	return hasStream, hasConn
 }
 
 func (w *rcvFCWrap) UpdateHighestReceived(off protocol.ByteCount, final bool, now monotime.Time) error {
@@ -783,12 +788,13 @@ type rcvFrameInfo struct {
 }
 
 type rcvStreamRun struct {
-	sc  *rcvSub
-	ops []rcvOp
-	res *KResult
-	S   []byte
-	bnd []int
-	fc  int
+	missedUpd string // a connection window update that became due in a Read and was not announced
+	sc        *rcvSub
+	ops       []rcvOp
+	res       *KResult
+	S         []byte
+	bnd       []int
+	fc        int
 
 	str  *ReceiveStream
 	cfc  flowcontrol.ConnectionFlowController
@@ -960,7 +966,17 @@ func (r *rcvStreamRun) call(rq rcvReq) (n int, err error) {
 	if rq.peek {
 		return r.str.Peek(r.rbuf[:rq.n])
 	}
-	return r.str.Read(r.rbuf[:rq.n])
+	n, err = r.str.Read(r.rbuf[:rq.n])
+	// C04: credit that the application's Read has earned is advertised - whatever else the Read returns (the last bytes and
+	// io.EOF at once, a deadline error): when the flow controller reports a connection-level update as due, the connection
+	// is told to send it before the call returns (a sender blocked at the connection limit has no other way to learn it)
+	if fc := r.snd.fc; fc != nil {
+		if fc.connUpdDue && !r.snd.conn && r.missedUpd == "" {
+			r.missedUpd = fmt.Sprintf("Read returned (%d, %v) after the flow controller reported a connection window update as due; onHasConnectionData was not called", n, err)
+		}
+		fc.connUpdDue, fc.streamUpdDue = false, false
+	}
+	return n, err
 }
 
 // forceUnlock releases the stream's mutex if a panic left it locked, so that the
@@ -1508,6 +1524,9 @@ func (r *rcvStreamRun) exec(op rcvOp) {
 	res := r.res
 	res.Logf("op %+v", op)
 	defer func() {
+		if r.missedUpd != "" && !res.Failed() {
+			res.Fail("connection window update earned by a Read was not announced to the connection", "%s", r.missedUpd)
+		}
 		if r.snd.leak != "" && !res.Failed() {
 			res.Fail("stream completed although unread bytes were never returned as connection-level credit", "%s", r.snd.leak)
 		}
